@@ -121,11 +121,14 @@ package rapidcore
 //@   requires s != nil && invoke != nil
 //@   ensures [not-initialised] delta(InitFailuresRead) == 1 && (lastret(InitFailuresRead) == nil ==> r0 == ErrInitNotStarted && delta(ServerReset) == 0 && delta(TimeoutFired) == 0)
 //@   ensures [exactly-one-report-from-the-release-goroutine] lastret(InitFailuresRead) != nil ==> delta(ReleaseFailedSeen) + delta(ReleaseSucceededSeen) == 1 && delta(TimeoutFired) <= 1
-//@   ensures [timeout-resets-then-reports-the-timeout] delta(TimeoutFired) == 1 ==> delta(ServerReset) == 1 && lastarg(ServerReset, 1) == autoresetReasonTimeout && lastarg(ServerReset, 2) == resetDefaultTimeoutMs && first(TimeoutFired) < first(ServerReset) && (delta(ReleaseFailedSeen) == 1 ==> last(ServerReset) < first(ReleaseFailedSeen)) && (delta(ReleaseSucceededSeen) == 1 ==> last(ServerReset) < first(ReleaseSucceededSeen))
+//@   ensures [timeout-resets-then-reports-the-timeout] delta(TimeoutFired) == 1 ==> r0 == ErrInvokeTimeout && delta(ServerReset) == 1 && lastarg(ServerReset, 1) == autoresetReasonTimeout && lastarg(ServerReset, 2) == resetDefaultTimeoutMs && first(TimeoutFired) < first(ServerReset) && (delta(ReleaseFailedSeen) == 1 ==> last(ServerReset) < first(ReleaseFailedSeen)) && (delta(ReleaseSucceededSeen) == 1 ==> last(ServerReset) < first(ReleaseSucceededSeen))
 //@   ensures [success-releases-the-reservation] delta(TimeoutFired) == 0 && delta(ReleaseSucceededSeen) == 1 ==> r0 == nil && delta(ServerReleased) == 1 && delta(ServerReset) == 0
-//@   ensures [failure-is-handed-on-without-a-second-reset] delta(TimeoutFired) == 0 && delta(ReleaseFailedSeen) == 1 ==> delta(ServerReset) == 0 && delta(ServerReleased) == 0
+//@   ensures [failure-is-handed-on-without-a-second-reset] delta(TimeoutFired) == 0 && delta(ReleaseFailedSeen) == 1 ==> r0 != nil && delta(ServerReset) == 0 && delta(ServerReleased) == 0
 
 // the timer goroutine sends nothing but the timeout error, at most once (what Invoke returns after a timeout is what it received)
+// what travels on the timer channel is the timeout error and nothing else: proved where it is sent, relied on where it is received
+//@ chaninv local:rapidcore.(*Server).Invoke.timeoutChan: v == ErrInvokeTimeout
+//@ chaninv local:rapidcore.(*Server).Invoke.releaseErrChan: v != nil
 //@ event TimeoutSent = send local:rapidcore.(*Server).Invoke.timeoutChan
 //@ func (*Server).Invoke$1
 //@   ensures [only-the-timeout-error] delta(TimeoutSent) <= 1 && (delta(TimeoutSent) == 1 ==> lastarg(TimeoutSent, 0) == ErrInvokeTimeout)
